@@ -13,6 +13,7 @@ import (
 	"sort"
 	"strings"
 	"sync"
+	"sync/atomic"
 	"time"
 
 	"golang.org/x/tools/go/ssa"
@@ -81,6 +82,8 @@ type HarnessResult struct {
 	assum     map[string]bool
 }
 
+var pathSeq int64
+
 type pathAbort struct{ why string }
 
 // engineFault: the engine cannot execute something (unsupported construct); the path is undecided.
@@ -126,6 +129,9 @@ type explorer struct {
 	lastObs  map[string]string
 	obsKind  map[string]string
 	choices  map[string]string
+	spec     int // >0 while a pure region is evaluated speculatively
+	condSet  map[string]bool
+	pathID   int64
 	curFn    map[*ssa.Function]bool
 	pathAssum map[string]bool
 	depth    int
@@ -289,15 +295,20 @@ func (ex *explorer) modelOf(m map[string]string) map[string]string {
 
 // check asks whether pathcond ∧ extra is satisfiable.
 func (ex *explorer) check(extra string, wantModel bool) (string, map[string]string) {
-	as := ex.pathcond
-	if extra != "" {
-		as = append(append(make([]string, 0, len(as)+1), as...), extra)
-	}
 	var gv []string
 	if wantModel {
 		gv = ex.inputNames()
 	}
-	r, m := ex.sol.check(ex.decls, as, gv)
+	if extra != "" && !wantModel {
+		// syntactic shortcuts: the condition (or its negation) is already on the path
+		if ex.condSet[extra] {
+			return "sat", nil
+		}
+		if ex.condSet[not1(extra)] {
+			return "unsat", nil
+		}
+	}
+	r, m := ex.sol.checkPath(ex.pathID, ex.decls, ex.pathcond, extra, gv)
 	if r == "sat" && wantModel {
 		return r, ex.modelOf(m)
 	}
@@ -305,10 +316,11 @@ func (ex *explorer) check(extra string, wantModel bool) (string, map[string]stri
 }
 
 func (ex *explorer) addCond(c string) {
-	if c == "true" {
+	if c == "true" || ex.condSet[c] {
 		return
 	}
 	ex.pathcond = append(ex.pathcond, c)
+	ex.condSet[c] = true
 }
 
 func (ex *explorer) stack(fr *frame) []string {
@@ -343,6 +355,9 @@ func (ex *explorer) implicitAssert(fr *frame, pos token.Pos, what string, safe s
 	if safe == "true" {
 		return
 	}
+	if ex.spec > 0 {
+		panic(mergeAbort{})
+	}
 	p := relPos(ex.cfg, fr.i.prog.Fset, pos)
 	if p == "" {
 		p = relPos(ex.cfg, fr.i.prog.Fset, fr.fn.Pos()) + "(" + fr.fn.Name() + ")"
@@ -369,7 +384,12 @@ type targetRuntimePanic struct {
 	pos  string
 }
 
+type mergeAbort struct{}
+
 func (ex *explorer) runtimePanic(fr *frame, pos token.Pos, what string) {
+	if ex.spec > 0 {
+		panic(mergeAbort{})
+	}
 	p := relPos(ex.cfg, fr.i.prog.Fset, pos)
 	if p == "" {
 		p = relPos(ex.cfg, fr.i.prog.Fset, fr.fn.Pos()) + "(" + fr.fn.Name() + ")"
@@ -392,6 +412,9 @@ func symBranch(fr *frame, c value, site ssa.Instruction) bool {
 		}
 		if c.term == "false" {
 			return false
+		}
+		if ex.spec > 0 {
+			panic(mergeAbort{})
 		}
 		if site != nil {
 			if fr.symCount == nil {
@@ -711,6 +734,9 @@ func (i *interpreter) runPath(harness *ssa.Function, prefix []int64) (pending []
 	ex.prefix, ex.pos, ex.taken, ex.pathcond = prefix, 0, nil, nil
 	ex.decls, ex.inputs, ex.nsym, ex.ndef = nil, nil, nil, 0
 	ex.steps, ex.events, ex.obsTerms, ex.pending = 0, nil, nil, nil
+	ex.spec = 0
+	ex.condSet = map[string]bool{}
+	ex.pathID = atomic.AddInt64(&pathSeq, 1)
 	ex.replacements = map[string]value{}
 	ex.lastObs, ex.obsKind, ex.choices = nil, map[string]string{}, map[string]string{}
 	ex.envmsgs = nil
